@@ -33,10 +33,10 @@ type Res struct {
 	ErrOK  bool
 }
 
-func okR(v cty.Value) Res        { return Res{V: v} }
-func errR(why string) Res        { return Res{Err: true, Why: why} }
-func unspecR(why string) Res     { return Res{Unspec: true, UWhy: why} }
-func (r Res) bad() bool          { return r.Err || r.Unspec }
+func okR(v cty.Value) Res          { return Res{V: v} }
+func errR(why string) Res          { return Res{Err: true, Why: why} }
+func unspecR(why string) Res       { return Res{Unspec: true, UWhy: why} }
+func (r Res) bad() bool            { return r.Err || r.Unspec }
 func (r Res) withErrOK(b bool) Res { r.ErrOK = r.ErrOK || b; return r }
 
 // merge implements "every operand is evaluated and every operand's errors are
